@@ -1,6 +1,7 @@
 import SFV.Driver.Json
 import SFV.Driver.K1
 import SFV.Model.GaussCompile
+import SFV.Model.GaussBlocks
 /-! Driver ops of the C11 model: `gc.gu`, `gc.passive`, `gc.expand`, `gc.checkMerge`. -/
 namespace SFV.Drv.GaussCompile
 open Lean SFV SFV.Drv SFV.GC SFV.Gauss
@@ -31,10 +32,37 @@ def asCxMat (j : Json) : R (Mat (Cx Rat)) := do
 
 def jcx (z : Cx Rat) : Json := jarr [jrat z.re, jrat z.im]
 
+def getRats (j : Json) (k : String) : R (List Rat) := do
+  (← getArr j k).mapM asRat
+
+/-- a gate given by its class name and atoms: `gc.gu` / `gc.passive` commands with `"op": "gate"` -/
+def asGate (name : String) (a : List Rat) : R (Gate Rat) :=
+  match name, a with
+  | "D", [ar, ai] => pure (.D ar ai)
+  | "R", [c, s] => pure (.R c s)
+  | "S", [c, s, ch, sh] => pure (.S c s ch sh)
+  | "BS", [ct, st, c, s] => pure (.BS ct st c s)
+  | "S2", [c, s, ch, sh] => pure (.S2 c s ch sh)
+  | "MZ", [h, cv, sv, cu, su] => pure (.MZ h ⟨cv, sv⟩ ⟨cu, su⟩)
+  | "sMZ", [ce, se, cd, sd] => pure (.sMZ ⟨ce, se⟩ cd sd)
+  | n, _ => throw s!"unknown gate {n} / wrong number of atoms"
+
+def asPGate (name : String) (a : List Rat) : R (PGate Rat) :=
+  match name, a with
+  | "R", [c, s] => pure (.R c s)
+  | "Loss", [q] => pure (.Loss q)
+  | "BS", [ct, st, c, s] => pure (.BS ct st c s)
+  | "MZ", [h, cv, sv, cu, su] => pure (.MZ h ⟨cv, sv⟩ ⟨cu, su⟩)
+  | "sMZ", [ce, se, cd, sd] => pure (.sMZ ⟨ce, se⟩ cd sd)
+  | n, _ => throw s!"unknown passive gate {n} / wrong number of atoms"
+
 def asGCmd (j : Json) : R (GCmd Rat) := do
   let regs ← getNatList j "regs"
   let dagger := getBoolD j "dagger" false
   let kind ← getStr j "op"
+  if kind == "gate" then
+    let g ← asGate (← getStr j "name") (← getRats j "a")
+    return g.cmd regs dagger
   let op ← match kind with
     | "disp" => do pure (GOp.disp (← asRat (← j.getObjVal? "dx")) (← asRat (← j.getObjVal? "dp")))
     | "blk1" => do pure (GOp.blk1 (← asRatMat (← j.getObjVal? "g")) (← asRatMat (← j.getObjVal? "gi")))
@@ -48,6 +76,9 @@ def asPCmd (j : Json) : R (PCmd (Cx Rat)) := do
   let regs ← getNatList j "regs"
   let dagger := getBoolD j "dagger" false
   let kind ← getStr j "op"
+  if kind == "gate" then
+    let g ← asPGate (← getStr j "name") (← getRats j "a")
+    return g.cmd regs dagger
   let op ← match kind with
     | "one" => do pure (POp.one (← asCx (← j.getObjVal? "g")) (← asCx (← j.getObjVal? "gi")))
     | "two" => do pure (POp.two (← asCxMat (← j.getObjVal? "g")) (← asCxMat (← j.getObjVal? "gi")))
@@ -94,6 +125,14 @@ def handler (op : String) (j : Json) : Option (R Json) :=
     let n ← getNat j "N"
     let E : Mat Rat := embedRows w g
     pure <| jarr ((List.range n).map fun i => jarr ((List.range n).map fun k => jrat (E i k)))
+  | "gc.surgery" => some do
+    let l ← K1.getCmds j "l"
+    let ms ← K1.byIds l (← getNatList j "ms")
+    let es ← K1.getCmds j "emitted"
+    let edges := match es with
+      | [] => surgeryEdgesNil l ms
+      | g :: ds => surgeryEdges l ms g ds
+    pure <| jarr (edges.map fun e => jarr [jnat e.1.id, jnat e.2.id])
   | "gc.checkMerge" => some do
     let src ← K1.getCmds j "src"
     let out ← K1.getCmds j "out"
